@@ -1,4 +1,5 @@
 from datetime import timedelta
+import math
 from typing import Any, Optional, Union
 
 from scriptplan.core.journal import Journal
